@@ -25,37 +25,41 @@ Section CP.
                 else match enc k c with Some w => Some (k, w) | None => search t cur c end
     end.
 
-  (* the encoder loop, with its state (current codepage letter) *)
-  Fixpoint enc_from (cur : N) (s : list N) : list N :=
+  (* the encoder loop, with its state: the current codepage letter, and whether the previous
+     character was the marker character. A marker that is already part of the text (ASCII caret
+     followed by a codepage letter) switches the current codepage; ^8 switches to the default. *)
+  Definition follow (l : N) : N := if l =? gen_propagate_letter then gen_default_codepage else l.
+  Fixpoint enc_from (cur : N) (after : bool) (s : list N) : list N :=
     match s with
     | [] => []
     | c :: t =>
-        if is_ascii c then c :: enc_from cur t
+        if is_ascii c then
+          c :: enc_from (if after && is_letter c then follow c else cur) (is_caret c) t
         else match enc cur c with
-             | Some w => w ++ enc_from cur t
+             | Some w => w ++ enc_from cur false t
              | None =>
                  match search gen_search_order cur c with
-                 | Some (k, w) => caret :: k :: w ++ enc_from k t
-                 | None => qmark :: enc_from cur t
+                 | Some (k, w) => caret :: k :: w ++ enc_from k false t
+                 | None => qmark :: enc_from cur false t
                  end
              end
     end.
-  Fixpoint state_after (cur : N) (s : list N) : N :=
+  Fixpoint state_after (cur : N) (after : bool) (s : list N) : N * bool :=
     match s with
-    | [] => cur
+    | [] => (cur, after)
     | c :: t =>
-        if is_ascii c then state_after cur t
+        if is_ascii c then state_after (if after && is_letter c then follow c else cur) (is_caret c) t
         else match enc cur c with
-             | Some _ => state_after cur t
+             | Some _ => state_after cur false t
              | None => match search gen_search_order cur c with
-                       | Some (k, _) => state_after k t
-                       | None => state_after cur t
+                       | Some (k, _) => state_after k false t
+                       | None => state_after cur false t
                        end
              end
     end.
 
   Definition to_lossy_bytes (s : list N) : list N :=
-    if forallb is_ascii s then s else enc_from gen_default_codepage s.
+    if forallb is_ascii s then s else enc_from gen_default_codepage false s.
 
   (* the decoder: scan for marker pairs (caret, codepage letter); the bytes between two markers
      are decoded in the codepage of the first; ^8 is kept in the text *)
